@@ -22,8 +22,8 @@ claim("C21",
       "Struct *types* are fixed Go types (one per side): the quantifier over random struct types is not covered, only their contents, keys and configuration are symbolic. sync.Map/WaitGroup run in a sequential model. In case-sensitive mode the statement is silent about a key that equals a field's folded name; that case is left undecided. Non-ASCII keys are outside the bound.",
       "DESIGN.md §5 C21")
 claim("C06",
-      "Rules-valid event streams from templates with symbolic payloads (integers in all three event forms over all 64-bit values, floats, strings, typed arrays whole and chunked, nested lists/maps, nodes, edges, record types + records, markers with backward/forward references to scalars, lists, maps and as map keys, comments and padding) are unmarshaled with no template by the real builder Session/BuilderEventReceiver (interface, list, map, record, marker builders, reference filler) and marshaled again by the real iterator Session; z3 shows unmarshal and marshal never fail and the two value trees are equal (integers by value, maps unordered, records as maps, references replaced by targets, comments dropped).",
-      "Streams are delivered as events after the real rules validator accepted them; the byte decoders in front are covered by C01/C07/C09. reflect/sync.Map/WaitGroup are the engine's emulation / sequential model. Big numbers, times, media, custom types, resource ids, NaN, deeper nesting and arbitrary event histories are not generated. Open finding: documents containing an edge cannot be unmarshaled (KF-C06-edge-end-rejected).",
+      "Rules-valid event streams from templates with symbolic payloads (integers in all three event forms over all 64-bit values, floats, strings, typed arrays whole and chunked, nested lists/maps, nodes, edges, record types + records, markers with backward/forward references to scalars, lists, maps and as map keys, comments and padding), and every event history of <= 5 events (6 thorough) over 10 event kinds that the real validator accepts as a complete acyclic document, are unmarshaled with no template by the real builder Session/BuilderEventReceiver (interface, list, map, record, marker builders, reference filler) and marshaled again by the real iterator Session; z3 shows unmarshal and marshal never fail and the two value trees are equal (integers by value, maps unordered, records as maps, references replaced by targets, comments dropped).",
+      "Streams are delivered as events after the real rules validator accepted them; the byte decoders in front are covered by C01/C07/C09. reflect/sync.Map/WaitGroup are the engine's emulation / sequential model. Big numbers, times, media, custom types, resource ids, NaN, deeper nesting and longer histories are not generated. Open finding: documents containing an edge cannot be unmarshaled (KF-C06-edge-end-rejected).",
       "DESIGN.md §5 C06")
 claim("C20",
       "Pointer graphs with recursion support on: 3 struct nodes with two pointer fields each (all 4^6 topologies: nil, self loops, cycles, shared targets), 3 nodes with slices of 0..2 pointers, 2..3 nodes with map[string]*node fields; payloads are solver variables. The real iterator Session (go-duplicates pointer scan, marker/reference emission) marshals the graph, the real rules validate it, the real builder Session (pointer/struct/slice/map builders, reference filler) unmarshals it into the same type, also through the real CBE encoder and decoder; every path must return (step budget = termination) and a simultaneous walk shows the result is isomorphic: nil, shared and cyclic pointers in the same places, all payloads equal.",
